@@ -27,7 +27,7 @@ fn multi_case(depths: &[u64], second_thread_depths: &[u64]) -> History {
         recs.push(mk(101, *d, t, k as u64 % 2));
         t += 1000;
     }
-    History { reuse: false, fold: false, ref_time: t0, recs, files: Vec::new() }
+    History { reuse: false, fold: false, ref_time: t0, recs, ..Default::default() }
 }
 
 fn deep_case(depth: u64, fold: bool, extra_shallow: bool, mapped: bool, recursion: u64) -> History {
@@ -49,7 +49,24 @@ fn deep_case(depth: u64, fold: bool, extra_shallow: bool, mapped: bool, recursio
     if extra_shallow {
         recs.push(Rec::Sample { pid: 100, tid: 100, t: t0 + 1000, kernel: false, period: 1_000_000, ip: 0x10008, chain: vec![CTX_USER, 0x10008, 0x10018, 0x10028] });
     }
-    History { reuse: false, fold, ref_time: t0, recs, files: Vec::new() }
+    History { reuse: false, fold, ref_time: t0, recs, ..Default::default() }
+}
+
+/// one sample of `depth` recorded frames, all return addresses inside perf-map functions of pid 100; `names`
+/// are the functions (16 bytes each from 0x10000), the frames cycle through them
+fn jit_case(depth: u64, names: &[&str]) -> History {
+    let t0 = 5_000_000u64;
+    let mut recs = vec![Rec::Comm { pid: 100, tid: 100, name: "jit".to_string(), exec: false, t: t0 - 10 }];
+    let mut perf_maps = Vec::new();
+    for (k, n) in names.iter().enumerate() {
+        perf_maps.push((100u32, PerfMapLine::Fn { addr: 0x10000 + 16 * k as u64, len: 16, name: n.to_string() }));
+    }
+    let mut chain = vec![CTX_USER];
+    for i in 0..depth {
+        chain.push(0x10000 + 16 * (i % names.len() as u64) + 1 + (i / names.len() as u64) % 15);
+    }
+    recs.push(Rec::Sample { pid: 100, tid: 100, t: t0, kernel: false, period: 1_000_000, ip: 0x10008, chain });
+    History { reuse: false, fold: false, ref_time: t0, recs, perf_maps, ..Default::default() }
 }
 
 impl Prop for C14 {
@@ -97,6 +114,7 @@ impl Prop for C14 {
             (&[500, 500, 700, 700], &[700, 500]),
             (&[3000, 501, 8000], &[300, 2000]),
         ];
+        v.push(Case { name: "js600".to_string(), ops: jit_case(600, &["py::f"]).to_ops() });
         for (k, (a, b)) in multis.iter().enumerate() {
             v.push(Case { name: format!("multi{k}"), ops: multi_case(a, b).to_ops() });
         }
